@@ -21,9 +21,12 @@ BOUNDS = {
     'quick': '3 attempt() calls at symbolic instants, pool size 1, 2 or '
              'unbounded, idle timeout none or 5 (symbolic service times decide '
              'whether connections are reused), each request either delivered, '
-             'refused (550 at MAIL / RCPT), cut off by a connection error at '
+             'refused (550 at MAIL / RCPT, optionally with the RSET answered '
+             'after the command timeout), cut off by a connection error at '
              'a chosen stage, or hit by a client crash (socket creator '
-             'raising); the server announcing 421 on an idle connection; '
+             'raising); senders that submit their next message the moment the '
+             'previous result arrives, servers with symbolic service times; '
+             'the server announcing 421 on an idle connection; '
              'BlockingDeque: every sequence of 4 operations from a deque of '
              '0..2 items',
     'thorough': '4 attempts',
@@ -46,6 +49,13 @@ def cells(tier):
             out.append({'kind': 'pool', 'size': size, 'idle': idle, 'k': k,
                         'faults': 1})
     out.append({'kind': 'pool', 'size': 1, 'idle': 1, 'k': 2, 'faults': 2})
+    # a sender that submits its next message the moment the previous result
+    # arrives, servers that take a symbolic time to accept a message
+    for size, idle in ((1, 0), (1, 1), (2, 0)):
+        out.append({'kind': 'pool', 'size': size, 'idle': idle, 'k': 3,
+                    'faults': 0, 'chain': 1, 'svc': 1})
+    out.append({'kind': 'pool', 'size': 1, 'idle': 0, 'k': 3, 'faults': 1,
+                'chain': 2, 'svc': 1})
     out.append({'kind': 'pool421', 'size': 1})
     out.append({'kind': 'pool421', 'size': 2})
     out.append({'kind': 'deque', 'L': 4})
@@ -66,7 +76,7 @@ def run(cell):
 
 
 OUTCOMES = ['ok', 'refuse-mail', 'refuse-rcpt', 'drop-at-data',
-            'connect-error', 'drop-at-banner']
+            'connect-error', 'drop-at-banner', 'refuse-rcpt-slow-rset']
 
 
 class World(object):
@@ -127,14 +137,23 @@ def make_peer(w, n):
         if stage == 'QUIT':
             return ('reply', '221', ['bye'])
         if stage == 'EOD':
+            if w.service_time is not None:
+                # the server takes a while to accept the message
+                gevent.sleep(w.service_time(state['sender']))
             return ('reply', '250', ['2.0.0 delivered for ' +
                                      (state['sender'] or '?')])
         if stage == 'MAIL':
             if w.outcome_of(state['sender']) == 'refuse-mail':
                 return ('reply', '550', ['5.1.0 no for ' + state['sender']])
             return ('reply', '250', ['ok'])
+        if stage == 'RSET':
+            if w.outcome_of(state['sender']) == 'refuse-rcpt-slow-rset':
+                # answers the RSET after the client's command timeout
+                gevent.sleep(12)
+            return ('reply', '250', ['reset'])
         if stage == 'RCPT':
-            if w.outcome_of(state['sender']) == 'refuse-rcpt':
+            if w.outcome_of(state['sender']) in ('refuse-rcpt',
+                                                 'refuse-rcpt-slow-rset'):
                 return ('reply', '550', ['5.1.1 no for ' + state['sender']])
             return ('reply', '250', ['ok'])
         return ('reply', '250', ['ok'])
@@ -168,7 +187,7 @@ def run_pool(cell):
     faulty = set()
     for j in range(nf):
         target = api.choice('fault_target%d' % j, k + 2)
-        kind = OUTCOMES[1 + api.choice('fault_kind%d' % j, 5)]
+        kind = OUTCOMES[1 + api.choice('fault_kind%d' % j, 6)]
         if target < k:
             if kind in ('connect-error', 'drop-at-banner'):
                 plan['conn%d' % target] = kind
@@ -179,12 +198,22 @@ def run_pool(cell):
 
     def outcome_of(key):
         return plan.get(key, 'ok')
-    w = World(cell['size'], cell['idle'], outcome_of, None)
+    svc = None
+    if cell.get('svc'):
+        durs = {}
+
+        def svc(sender):
+            if sender not in durs:
+                durs[sender] = api.real('svc_%s' % sender, 0, 3)
+            return durs[sender]
+    w = World(cell['size'], cell['idle'], outcome_of, svc)
     outs = {}
     times = [api.real('t%d' % i, 0, 8) for i in range(k)]
+    chain = cell.get('chain', 0)
 
-    def go(i):
-        gevent.sleep(times[i])
+    def go(i, wait=True):
+        if wait:
+            gevent.sleep(times[i])
         env = qc.make_envelope('m%d' % i, 's%d@z' % i, ['r%d@x' % i])
         try:
             outs[i] = ('value', w.relay.attempt(env, 0))
@@ -194,8 +223,13 @@ def run_pool(cell):
             raise
         except Exception as e:
             outs[i] = ('other', e)
+        if i < chain:
+            # the sender woken by this result submits its next message at
+            # once (before the hub has run anything else)
+            go(i + 1, wait=False)
     for i in range(k):
-        gevent.spawn(go, i)
+        if i == 0 or i > chain:
+            gevent.spawn(go, i)
     qc.run_until_quiescent()
     info = dict(size=cell['size'], idle=cell['idle'], plan=plan)
     api.observe('returned', sorted(outs))
